@@ -122,3 +122,11 @@ def _is_in_cache_ignore_args(obj, name):
 def _is_in_cache_ignore_all_args(obj, name):
     """checks if item is in cache by name."""
     return hasattr(obj, "_memoize_cache") and name in [x[0] for x in obj._memoize_cache.keys()]
+
+
+def _get_from_cache_ignore_all_args(obj, name):
+    """Get the item cached under this name, whatever the calling args were."""
+    for key, val in getattr(obj, "_memoize_cache", {}).items():
+        if isinstance(key, tuple) and key[0] == name:
+            return val
+    raise CachingError("Object does not have item {} stored in cache.".format(name))
